@@ -127,7 +127,7 @@ func init() {
 			{Rule: "RAPID.opts", Min: 3, Why: "three option rules"},
 			{Rule: "RAPID.nil", Min: 2, Why: "nil sources + method calls"},
 			{Rule: "RAPID.utf8", Min: 3, Why: "ValueOfString sites"},
-			{Rule: "RAPID.any", Min: 1, Why: "genAny"},
+			{Rule: "RAPID.any", Min: 3, Why: "genAny consistency, the result of at least one genAny call, Truncate after a failed element"},
 			{Rule: "RAPID.dispatch", Min: 4, Why: "four well-known types"},
 			{Rule: "RAPID.fresh", Min: 1, Why: "MessageGenerator"},
 			{Rule: "RAPID.url", Min: 3, Why: "WithAnyTypes, WithInterfaceHint, genAny"},
